@@ -632,6 +632,10 @@ func (x *Exec) VerifyFunc(fn *ssa.Function, spec *FuncSpec) (obls []*Obligation,
 		// free variables are pointers to the captured variable: expose the variable itself by name
 		vc.paramEnv["&"+p.Name()] = SV{T: t, Typ: p.Type()}
 	}
+	if recv := fn.Signature.Recv(); recv != nil && len(fn.Params) > 0 {
+		// the receiver as an interface value (for instantiated interface-method contracts)
+		vc.paramEnv["iface_self"] = SV{T: x.TI.Box(recv.Type(), fr.vals[fn.Params[0]].T)}
+	}
 	vc.entry = st.snapshot()
 	// requires
 	env := x.entryEnv(st)
